@@ -263,6 +263,11 @@ class Program:
                     rr = self.resolve_name(r[1], f.attr)
                     if isinstance(rr, (FuncInfo, ClassInfo)):
                         return rr
+            # obj.method(...) where the method name is defined by exactly one class of the package
+            if self.external_name(fi, f) is None:
+                cands = [ci.methods[f.attr] for ci in self.classes.values() if f.attr in ci.methods and not f.attr.startswith("__")]
+                if len(cands) == 1:
+                    return cands[0]
         return None
 
     def external_name(self, fi: FuncInfo, expr: ast.expr) -> Optional[str]:
